@@ -34,10 +34,10 @@ struct topology {
 };
 
 /// Allowed directions to reach a neighbor in a TOPOLOGY_HEXAGON
-static enum topology_direction directions_hexagon[] = {DIRECTION_E, DIRECTION_W, DIRECTION_NE, DIRECTION_NW,
+static const enum topology_direction directions_hexagon[] = {DIRECTION_E, DIRECTION_W, DIRECTION_NE, DIRECTION_NW,
     DIRECTION_SE, DIRECTION_SW};
 /// Allowed directions to reach a neighbor in either a TOPOLOGY_SQUARE or a TOPOLOGY_TORUS
-static enum topology_direction directions_square_torus[] = {DIRECTION_E, DIRECTION_W, DIRECTION_N, DIRECTION_S};
+static const enum topology_direction directions_square_torus[] = {DIRECTION_E, DIRECTION_W, DIRECTION_N, DIRECTION_S};
 
 /**
  * @brief Return a random neighbor
@@ -56,7 +56,7 @@ static enum topology_direction directions_square_torus[] = {DIRECTION_E, DIRECTI
  * @return A random neighbor according to the specified topology
  */
 static lp_id_t get_random_neighbor(lp_id_t from, struct topology *topology, size_t n_directions,
-    enum topology_direction directions[n_directions])
+    const enum topology_direction directions[n_directions])
 {
 	lp_id_t ret = INVALID_DIRECTION;
 
@@ -66,17 +66,21 @@ static lp_id_t get_random_neighbor(lp_id_t from, struct topology *topology, size
 	assert(topology->geometry != TOPOLOGY_FCMESH);
 	assert(topology->geometry != TOPOLOGY_GRAPH);
 
+	// Shuffle a private copy: the candidate arrays are shared between LPs and threads
+	enum topology_direction shuffled[n_directions];
+	memcpy(shuffled, directions, sizeof(shuffled));
+
 	if(n_directions > 1) {
 		for(size_t i = 0; i < n_directions - 1; i++) {
 			size_t j = RandomRange((int)i, (int)n_directions - 1);
-			enum topology_direction t = directions[j];
-			directions[j] = directions[i];
-			directions[i] = t;
+			enum topology_direction t = shuffled[j];
+			shuffled[j] = shuffled[i];
+			shuffled[i] = t;
 		}
 	}
 
 	for(size_t i = 0; i < n_directions; i++) {
-		ret = GetReceiver(from, topology, directions[i]);
+		ret = GetReceiver(from, topology, shuffled[i]);
 		if(ret != INVALID_DIRECTION)
 			break;
 	}
